@@ -25,7 +25,7 @@ TProver == /\ IsEv("rangeprover")
                               /\ ~r.honest.wrong_slot /\ ~r.honest.other_params /\ ~r.honest.other_challenge
                               /\ ~r.honest.shifted_response /\ ~r.honest.unlinked
 TAttack == /\ IsEv("rangeattack")
-           /\ r.decoded
+           /\ (r.decoded \/ ~r.verdict)                \* a constraint the decoder refuses is a rejection
            /\ r.verdict = AllTrue(r.atoms)
            /\ r.verdict => r.linked_value_in_range
            /\ r.verdict = r.well_formed
